@@ -387,10 +387,12 @@ func (ps *PubSub) Channels() []string {
 	}
 
 	var channels []string
+	seen := make(map[string]struct{})
 	for _, sconn := range ps.conns {
 		sconn.mu.Lock()
 		for ient := range sconn.entries {
-			if !ient.pattern {
+			if _, ok := seen[ient.channel]; !ient.pattern && !ok {
+				seen[ient.channel] = struct{}{}
 				channels = append(channels, ient.channel)
 			}
 		}
@@ -409,10 +411,12 @@ func (ps *PubSub) ChannelsWithPatterns(pattern string) []string {
 	}
 
 	var channels []string
+	seen := make(map[string]struct{})
 	for _, sconn := range ps.conns {
 		sconn.mu.Lock()
 		for ient := range sconn.entries {
-			if match.Match(ient.channel, pattern) {
+			if _, ok := seen[ient.channel]; !ient.pattern && !ok && match.Match(ient.channel, pattern) {
+				seen[ient.channel] = struct{}{}
 				channels = append(channels, ient.channel)
 			}
 		}
@@ -456,7 +460,7 @@ func (ps *PubSub) Numsub(channel string) int {
 	for _, sconn := range ps.conns {
 		sconn.mu.Lock()
 		for ient := range sconn.entries {
-			if ient.channel == channel {
+			if !ient.pattern && ient.channel == channel {
 				result++
 			}
 		}
